@@ -16,6 +16,20 @@
 // exists, who owns it (etcd: the registrant whose lease the key carries), the
 // remaining TTL (redis) and - after MTickAll / MStop - which expiry channels are
 // closed.  The case is (mkCase backend ttls ops obs).
+//
+// Watcher mode (backends BEtcdW / BRedisW, interpreter w_mop): the same macro
+// operations drive the client loop selfmon.withActiveLock (through the verif hook
+// selfmon/export_verif.go) instead of StartEphemeral itself:
+//
+//	MReg i    start watcher i: a goroutine calling withActiveLock(parentCtx_i, f_i);
+//	          ResOk = its first StartEphemeral attempt succeeded and f_i runs,
+//	          ResExists = it failed with ErrKeyExists: the watcher is "pending"
+//	          (retrying every second); at most one watcher is pending at a time
+//	MTickAll  2.5 tick periods, then the pending watcher's next retry, then (if it
+//	          registered) 2.5 tick periods more
+//	MStop i   cancel parentCtx_i and wait for withActiveLock to return
+//
+// closed[i] = f_i has run and has returned (most recent start of watcher i).
 package c26
 
 import (
@@ -31,6 +45,8 @@ import (
 	"verifharness/vh"
 
 	"github.com/alicebob/miniredis/v2"
+	"github.com/projecteru2/core/selfmon"
+	"github.com/projecteru2/core/store"
 	"github.com/projecteru2/core/store/etcdv3"
 	"github.com/projecteru2/core/store/etcdv3/embedded"
 	"github.com/projecteru2/core/store/redis"
@@ -132,6 +148,7 @@ type backend interface {
 	registered(i int) string          // right after a successful MReg i
 	lapse() string                    // returns a note ("" = fine)
 	look() (bool, int, int64, string) // key, owner, ttl, note
+	store() store.Store               // watcher mode: what withActiveLock registers through
 	close()
 }
 
@@ -140,13 +157,20 @@ type etcdBackend struct {
 	cli   *clientv3.Client
 	path  string
 	owner map[int64]int // lease id -> registrant whose registration created it
+	watch bool          // watcher mode (path = selfmon.ActiveKey)
 }
 
-func (e *etcdBackend) name() string      { return "etcd" }
-func (e *etcdBackend) coq() string       { return "BEtcd" }
-func (e *etcdBackend) ttl() int64        { return 1 }
-func (e *etcdBackend) hb() time.Duration { return hbEtcd }
-func (e *etcdBackend) close()            {}
+func (e *etcdBackend) name() string { return "etcd" }
+func (e *etcdBackend) coq() string {
+	if e.watch {
+		return "BEtcdW"
+	}
+	return "BEtcd"
+}
+func (e *etcdBackend) store() store.Store { return e.m }
+func (e *etcdBackend) ttl() int64         { return 1 }
+func (e *etcdBackend) hb() time.Duration  { return hbEtcd }
+func (e *etcdBackend) close()             {}
 func (e *etcdBackend) start(ctx context.Context) (<-chan struct{}, func(), error) {
 	return e.m.StartEphemeral(ctx, e.path, hbEtcd)
 }
@@ -208,14 +232,21 @@ func (e *etcdBackend) look() (bool, int, int64, string) {
 }
 
 type redisBackend struct {
-	srv  *miniredis.Miniredis
-	r    *redis.Rediaron
-	path string
-	beat time.Duration
+	srv   *miniredis.Miniredis
+	r     *redis.Rediaron
+	path  string
+	beat  time.Duration
+	watch bool
 }
 
-func (q *redisBackend) name() string          { return "redis" }
-func (q *redisBackend) coq() string           { return "BRedis" }
+func (q *redisBackend) name() string { return "redis" }
+func (q *redisBackend) coq() string {
+	if q.watch {
+		return "BRedisW"
+	}
+	return "BRedis"
+}
+func (q *redisBackend) store() store.Store    { return q.r }
 func (q *redisBackend) ttl() int64            { return int64(q.beat / time.Millisecond) }
 func (q *redisBackend) hb() time.Duration     { return q.beat }
 func (q *redisBackend) registered(int) string { return "" }
@@ -325,6 +356,7 @@ type registrant struct {
 
 type spec struct {
 	b      string
+	watch  bool // watcher mode: selfmon.withActiveLock instead of StartEphemeral
 	n      int
 	fixed  []mop // corpus: the operations; nil = random
 	seed   int64 // random: private generator seed, drawn from r.Rng
@@ -608,16 +640,31 @@ func TestC26(t *testing.T) {
 			specs = append(specs, spec{b: b, n: 2, fixed: ops})
 		}
 	}
+	for _, b := range []string{"etcd", "redis"} {
+		for _, ops := range watcherCorpus() {
+			specs = append(specs, spec{b: b, watch: true, n: 2, fixed: ops})
+		}
+	}
 	nRandom := r.N(16, 300)
 	for k := 0; k < nRandom; k++ {
 		for _, b := range []string{"etcd", "redis"} {
 			specs = append(specs, spec{b: b, n: 2 + r.Rng.Intn(2), seed: r.Rng.Int63(), length: 8 + r.Rng.Intn(8)})
 		}
 	}
+	nWatch := r.N(4, 40)
+	for k := 0; k < nWatch; k++ {
+		for _, b := range []string{"etcd", "redis"} {
+			specs = append(specs, spec{b: b, watch: true, n: 2 + r.Rng.Intn(2), seed: r.Rng.Int63(), length: 6 + r.Rng.Intn(5)})
+		}
+	}
 
 	mk := func(idx int, sp spec) (backend, error) {
 		if sp.b == "etcd" {
-			return &etcdBackend{m: merc, cli: cli, path: fmt.Sprintf("/eph/%d", idx), owner: map[int64]int{}}, nil
+			path := fmt.Sprintf("/eph/%d", idx)
+			if sp.watch {
+				path = selfmon.ActiveKey // fixed: etcd watcher schedules run one at a time
+			}
+			return &etcdBackend{m: merc, cli: cli, path: path, owner: map[int64]int{}, watch: sp.watch}, nil
 		}
 		srv, err := miniredis.Run()
 		if err != nil {
@@ -630,6 +677,12 @@ func TestC26(t *testing.T) {
 			srv.Close()
 			return nil, err
 		}
+		if sp.watch {
+			// 1 s only: with a heartbeat whose refresh ttl differs from it, the ttl
+			// read after a slow watcher operation (a cancelled wait takes up to 1 s)
+			// depends on whether a background tick has fired
+			return &redisBackend{srv: srv, r: rd, path: selfmon.ActiveKey, beat: time.Second, watch: true}, nil
+		}
 		return &redisBackend{srv: srv, r: rd, path: fmt.Sprintf("/eph/%d", idx), beat: redisHeartbeats[idx%len(redisHeartbeats)]}, nil
 	}
 
@@ -639,42 +692,63 @@ func TestC26(t *testing.T) {
 	errs := make([]error, len(specs))
 	sem := make(chan struct{}, 8)
 	var wg sync.WaitGroup
+	runOne := func(idx int, sp spec) {
+		// etcd schedules depend on real time (1 s leases kept alive by 100 ms
+		// tickers): a stall of the machine / the embedded server lets a lease
+		// expire by itself, which the schedule did not ask for.  A probe that is
+		// independent of the code under test measures the largest stall; a
+		// stalled run is repeated (at most twice) on a fresh key, then emitted anyway.
+		for attempt := 0; ; attempt++ {
+			b, err := mk(idx*8+attempt, sp)
+			if err != nil {
+				errs[idx] = err
+				return
+			}
+			var probe *stallProbe
+			if sp.b == "etcd" {
+				probe = startProbe(cli)
+			}
+			if sp.watch {
+				outs[idx] = runWatcherSchedule(sp, b)
+			} else {
+				outs[idx] = runSchedule(sp, b)
+			}
+			if probe == nil {
+				return
+			}
+			stall := probe.stop()
+			if stall < stallLimit {
+				return
+			}
+			if attempt >= 3 {
+				atomic.AddInt64(&emittedStalled, 1)
+				dropRun[idx] = true
+				return
+			}
+			atomic.AddInt64(&repeated, 1)
+		}
+	}
+	// the etcd watcher schedules share one key: one goroutine runs them one after
+	// the other, in parallel with everything else
+	wg.Add(1)
+	go func() {
+		defer wg.Done()
+		for idx, sp := range specs {
+			if sp.watch && sp.b == "etcd" {
+				runOne(idx, sp)
+			}
+		}
+	}()
 	for idx, sp := range specs {
+		if sp.watch && sp.b == "etcd" {
+			continue
+		}
 		wg.Add(1)
 		sem <- struct{}{}
 		go func(idx int, sp spec) {
 			defer wg.Done()
 			defer func() { <-sem }()
-			// etcd schedules depend on real time (1 s leases kept alive by 100 ms
-			// tickers): a stall of the machine / the embedded server lets a lease
-			// expire by itself, which the schedule did not ask for.  A probe that is
-			// independent of the code under test measures the largest stall; a
-			// stalled run is repeated (at most twice) on a fresh key, then emitted anyway.
-			for attempt := 0; ; attempt++ {
-				b, err := mk(idx*8+attempt, sp)
-				if err != nil {
-					errs[idx] = err
-					return
-				}
-				var probe *stallProbe
-				if sp.b == "etcd" {
-					probe = startProbe(cli)
-				}
-				outs[idx] = runSchedule(sp, b)
-				if probe == nil {
-					return
-				}
-				stall := probe.stop()
-				if stall < stallLimit {
-					return
-				}
-				if attempt >= 3 {
-					atomic.AddInt64(&emittedStalled, 1)
-					dropRun[idx] = true
-					return
-				}
-				atomic.AddInt64(&repeated, 1)
-			}
+			runOne(idx, sp)
 		}(idx, sp)
 	}
 	wg.Wait()
@@ -711,18 +785,22 @@ func TestC26(t *testing.T) {
 				exists = exists || o.obs[i].Res == "ResExists"
 			}
 		}
-		lwr := lapseWhileRegistered(o.ops)
+		lwr, client := lapseWhileRegistered(o.ops), "direct"
+		if specs[idx].watch {
+			lwr, client = lapseWhileRegisteredW(o.ops), "selfmon"
+		}
 		r.Count("backend=" + o.b.name())
+		r.Count("client=" + client)
 		r.Count(fmt.Sprintf("n=%d", o.n))
 		r.Count(fmt.Sprintf("lapse_while_registered=%v", lwr))
 		if len(o.notes) > 0 {
 			r.Count("schedules_with_notes")
 		}
 		term := fmt.Sprintf("(mkCase %s %s %s %s)", o.b.coq(), vh.ZList(ttls), vh.List(ops), vh.List(obs))
-		desc := map[string]any{"backend": o.b.name(), "n": o.n, "heartbeat_ms": int64(o.b.hb() / time.Millisecond),
+		desc := map[string]any{"backend": o.b.name(), "client": client, "n": o.n, "heartbeat_ms": int64(o.b.hb() / time.Millisecond),
 			"corpus": specs[idx].fixed != nil, "ops": opNames, "obs": o.obs, "notes": o.notes}
-		tags := map[string]any{"backend": o.b.name(), "lapse_while_registered": lwr}
+		tags := map[string]any{"backend": o.b.name(), "client": client, "lapse_while_registered": lwr}
 		r.Add(term, desc, tags, lwr || exists)
 	}
-	r.Finish("per backend (real StartEphemeral on embedded etcd with heartbeat 300 ms / miniredis with heartbeats 300 ms / 1 s / 1.2 s by schedule index; an etcd schedule during which an independent probe saw a stall >= 400 ms is repeated up to three times, then dropped): a corpus of 4 schedules (register-tick-stop; a rejected second registrant that registers after the first stopped; the redis witness lapse-takeover-stop; lapse with nobody taking over), then adaptive random schedules of 8-15 macro operations over 2 or 3 registrants (MReg 35%, MTickAll 30%, MLapse 15%, MStop 20% among the operations legal in the harness view), closed by a Stop of every still-active registrant; non-trivial = a lapse while somebody is registered, or a registration rejected with ErrKeyExists")
+	r.Finish("per backend (real StartEphemeral on embedded etcd with heartbeat 300 ms / miniredis with heartbeats 300 ms / 1 s / 1.2 s by schedule index; an etcd schedule during which an independent probe saw a stall >= 400 ms is repeated up to three times, then dropped): a corpus of 4 schedules (register-tick-stop; a rejected second registrant that registers after the first stopped; the redis witness lapse-takeover-stop; lapse with nobody taking over), then adaptive random schedules of 8-15 macro operations over 2 or 3 registrants (MReg 35%, MTickAll 30%, MLapse 15%, MStop 20% among the operations legal in the harness view), closed by a Stop of every still-active registrant; non-trivial = a lapse while somebody is registered, or a registration rejected with ErrKeyExists. Watcher mode (client=selfmon): the same operations drive selfmon.withActiveLock through the verif hook (MReg = start a watcher, pending when its first attempt is rejected, at most one pending; MTickAll also waits for the pending watcher's next retry; MStop = cancel the watcher's context), etcd heartbeat 300 ms on the fixed key one schedule at a time, redis heartbeat 1 s: a corpus of 3 schedules per backend (start-tick-stop; a waiting watcher that takes over after a lapse; a watcher cancelled while waiting), then adaptive random schedules of 6-10 operations")
 }
